@@ -336,6 +336,13 @@ func (g *frameGen) frame(kind string, vpn bool) ([]byte, string) {
 			return g.eth(0x0806, g.arpBody([]uint16{uint16(rng.Intn(40)), 0x0101, 0x8001, 0x0100, 0xff01}[rng.Intn(5)], 0x0800, 6, 4, 20)), "arp-htype"
 		case c == 8:
 			return g.eth(0x0806, g.arpBody(1, []uint16{0x86dd, 0x0806, 0, 0x0801}[rng.Intn(4)], 6, 4, 20)), "arp-ptype"
+		case c == 9 && rng.Intn(2) == 0:
+			// an ARP frame with trailing padding as the ring holds it (64 bytes), or whole
+			f := g.eth(0x0806, append(g.arpBody(1, 0x0800, 6, 4, 20), g.bytes(23+rng.Intn(1500))...))
+			if rng.Intn(2) == 0 {
+				return f[:64], "arp-snap-cut"
+			}
+			return f, "arp-padded"
 		case c == 9:
 			f := g.eth(0x0806, g.arpBody(1, 0x0800, 6, 4, 20))
 			return f[:rng.Intn(len(f))], "arp-truncated"
@@ -426,6 +433,16 @@ func (g *frameGen) frame(kind string, vpn bool) ([]byte, string) {
 		return g.bytes(rng.Intn(80)), "random-bytes"
 	case c == 28:
 		return nil, "empty"
+	case c == 29:
+		// what the ring holds of a frame longer than the capture length: IPv4 total length beyond the data
+		f := link(g.ipv4(baseIP(proto), append(tp, g.bytes(1500+rng.Intn(3000))...)))
+		return f[:1518], "snap-cut"
+	case c == 30:
+		o := baseIP(proto)
+		if rng.Intn(3) == 0 {
+			o.totalLen = 0
+		}
+		return link(g.ipv4(o, append(tp, g.bytes(1500+rng.Intn(7500))...))), "jumbo"
 	default:
 		return link(g.ipv4(baseIP(proto), tp)), "valid"
 	}
